@@ -6,12 +6,12 @@ CONSTANTS
     SegOrder <- MCSegs
     GlobTable <- MCGlob
     Grid <- MCGridSmall
-    TxGrid <- MCTxGridTiny
+    TxGrid <- MCTxGrid
     JoinCollapse = FALSE
-    NoLimitRaw = TRUE
+    NoLimitRaw = FALSE
     Faults = TRUE
-    PanicCommits = FALSE
-    MaxTxOps = 1
-INVARIANTS
-    ListIsSlice
+    PanicCommits = TRUE
+    MaxTxOps = 2
+PROPERTIES
+    FailedOpLeavesNoTrace
 CHECK_DEADLOCK FALSE
